@@ -158,6 +158,17 @@ def gen_cases(ctx):
         for storage in ("se3", "quat"):
             ref, est = gen_pair(r, N, "generic", 0.1, 1.0)
             yield {"kind": "tiny", "op": "origin", "ref": ref, "est": est, "storage": storage, "noise": 0.1, "ratio": 1.0, "n": -1}
+    # unequal numbers of poses, both directions x n-options x modes x storages
+    for di, (dn_ref, dn_est) in enumerate([(1, 0), (r.randint(3, 9), 0), (0, 1), (0, r.randint(3, 9))]):
+        for ni, nopt in enumerate(["all", "le-min", "between", "gt-max"]):
+            for mi, mode in enumerate(["se3", "sim3", "scale"]):
+                base = r.randint(5, 12)
+                Nr, Ne = base + dn_ref, base + dn_est
+                refL, estL = gen_pair(r, max(Nr, Ne), "generic", 0.05, 1.0)
+                nsel = {"all": -1, "le-min": r.randint(3, min(Nr, Ne)), "between": r.randint(min(Nr, Ne) + 1, max(Nr, Ne)),
+                        "gt-max": max(Nr, Ne) + r.randint(1, 4)}[nopt]
+                yield {"kind": "unequal", "op": "align", "mode": mode, "ref": refL[:Nr], "est": estL[:Ne],
+                       "storage": ["se3", "quat"][(di + ni + mi) % 2], "noise": 0.05, "ratio": 1.0, "n": nsel}
     # origin alignment in UTM-like coordinates: large common offset (1e5..1e7), origins only 1e-4..10 m apart,
     # first orientations equal or slightly different
     for j in range(10 if not ctx.thorough else 60):
@@ -470,6 +481,30 @@ def judge(ctx, case, impl, outs, extra):
     k = used_count(case["n"], N)
     if k_model != k:
         ctx.mismatch(case, "firstN selects a different number of poses than Python slicing", k, k_model)
+    if op == "align" and len(case["ref"]) != N:
+        # unequal numbers of poses: the point sets handed to Umeyama are the first-n positions of each trajectory
+        # (n = -1: all of them); unequal sizes must be refused with evo's geometry error, equal ones aligned as usual
+        kr = used_count(case["n"], len(case["ref"]))
+        if impl["k_ref_model"] != kr:
+            ctx.mismatch(case, "firstN (reference) selects a different number of poses than Python slicing", kr, impl["k_ref_model"])
+        ctx.count("dist", "unequal-lengths:" + ("ref-longer" if len(case["ref"]) > N else "est-longer")
+                  + (":sets-equal" if k == kr else ":sets-unequal"))
+        if k_model != impl["k_ref_model"]:
+            ctx.count("branch", "unequal-point-sets(model refuses)")
+            if impl.get("err") != "E_GEOMETRY" and not str(impl.get("err", "")).startswith("CRASH"):
+                ctx.mismatch(case, "model refuses (point sets of unequal size), evo returns a result", impl.get("rts"), "E_GEOMETRY")
+        if k != kr:
+            if impl.get("err") == "E_GEOMETRY":
+                ctx.record(case, True)
+                return
+            if str(impl.get("err", "")).startswith("CRASH"):
+                ctx.fail(case, "no-unexpected-exception", impl["err"])
+            else:
+                ctx.fail(case, "unequal-sizes-refused",
+                         f"align(n={case['n']}) of {N} estimate poses to {len(case['ref'])} reference poses uses point sets of "
+                         f"{k} and {kr} points but returned a transformation instead of raising GeometryException")
+            ctx.record(case, True)
+            return
     if "err" in impl:
         if impl["err"].startswith("CRASH"):
             ctx.fail(case, "no-unexpected-exception", impl["err"])
@@ -731,6 +766,9 @@ def evaluate(ctx, cases):
     impls = [run_impl(c) for c in cases]
     # first pass: model's firstN (needed to slice the certificate inputs the way the model does)
     first = core.run_driver([f"C04 firstn {c['n']} {len(c['est'])}" for c in cases])
+    first_ref = core.run_driver([f"C04 firstn {c['n']} {len(c['ref'])}" for c in cases])
+    for i, kr in zip(impls, first_ref):
+        i["k_ref_model"] = int(kr)
     lines, spans = [], []
     for c, i, k in zip(cases, impls, first):
         ls = model_lines(c, i)
